@@ -426,7 +426,7 @@ def generate(rng, tier):
             # the scope-class form (compared only): static templates, so that the inert path is taken;
             # a dynamic class= next to a global class is rejected by the macro
             t = [n for n in gen_template_static(rng)]
-            yield dict(tpl=t, kind="global-class", compare=False, gclass=pick(rng, ["sc", "s-1"]))
+            yield dict(tpl=t, kind="global-class", compare=False, gclass=pick(rng, ["sc", "s-1", "q&r", "a<\"b"]))
         else:
             t = gen_template(rng)
             yield dict(tpl=t, kind="template", compare=True)
